@@ -115,11 +115,34 @@ def proxy_stream(ctx, res, n):
         try:
             s.lst = cc.ListField(F.build_field(item, tmp))
             s.dct = cc.DictField(cc.StringField(), F.build_field(item, tmp))
+            # siblings of the same kind without the constraints: their proxies may hold what this field must reject or normalise
+            s.loose = cc.ListField(F.build_field({"k": item["k"], "required": False}, tmp))
+            s.loosed = cc.DictField(cc.StringField(), F.build_field({"k": item["k"], "required": False}, tmp))
         except Exception:  # noqa
             continue
         cfg = s()
         cfg.lst = []
         cfg.dct = {}
+
+        def other_list(vals):
+            held = []
+            for v in vals:
+                try:
+                    cfg.loose = [v]
+                    held.append(cfg.loose[0])
+                except Exception:  # noqa
+                    pass
+            cfg.loose = held
+            return cfg.loose
+
+        def other_dict(vals):
+            cfg.loosed = {}
+            for n, v in enumerate(vals):
+                try:
+                    cfg.loosed["o%d" % n] = v
+                except Exception:  # noqa
+                    pass
+            return cfg.loosed
         for step in range(8):
             vals = [F.gen_value(rng, item, tmp, 0.3) for _ in range(3)]
             lst, dct = cfg.lst, cfg.dct
@@ -128,7 +151,13 @@ def proxy_stream(ctx, res, n):
                     ("setslice", lambda: lst.__setitem__(slice(0, 1), vals)), ("setslice-tuple", lambda: lst.__setitem__(slice(0, 2), tuple(vals))),
                     ("dict-set", lambda: dct.__setitem__("k", vals[0])), ("dict-update", lambda: dct.update({"a": vals[0], "b": vals[1]})),
                     ("dict-update-kw", lambda: dct.update(c=vals[2])), ("dict-update-pairs", lambda: dct.update([("p", vals[0])])),
-                    ("dict-setdefault", lambda: dct.setdefault("sd", vals[1])), ("dict-ior", lambda: dct.__ior__({"i": vals[0], "j": vals[1]}))]
+                    ("dict-setdefault", lambda: dct.setdefault("sd", vals[1])), ("dict-ior", lambda: dct.__ior__({"i": vals[0], "j": vals[1]})),
+                    ("extend-other-proxy", lambda: lst.extend(other_list(vals))), ("iadd-other-proxy", lambda: lst.__iadd__(other_list(vals))),
+                    ("setslice-other-proxy", lambda: lst.__setitem__(slice(0, 1), other_list(vals))),
+                    ("assign-other-proxy", lambda: setattr(cfg, "lst", other_list(vals))),
+                    ("add-other-proxy", lambda: setattr(cfg, "lst", lst + other_list(vals))),
+                    ("dict-update-other-proxy", lambda: dct.update(other_dict(vals))), ("dict-ior-other-proxy", lambda: dct.__ior__(other_dict(vals))),
+                    ("dict-assign-other-proxy", lambda: setattr(cfg, "dct", other_dict(vals)))]
             name, fn = rng.choice(muts)
             try:
                 fn()
